@@ -279,6 +279,9 @@ def gen_cases(rng, tier):
                  "CamelCase", "snake_case", "mixed 12 tokens", "é", "日本"]
         rows = [[r.choice(words) + (str(r.randint(0, 999)) if r.chance(50) else "") for _ in range(ncol)]
                 for _ in range(nrow)]
+        if r.chance(25):
+            # line breaks inside a (quoted) cell - standard CSV; the reader must hand back exactly these characters
+            rows[r.below(nrow)][r.below(ncol)] = r.choice(["two\r\nlines", "cr\ronly", "lf\nonly", "x\r\n", "a\r\n\r\nb"])
         if r.chance(15):
             rows[r.below(nrow)] = rows[0][: ncol - 1]      # a short row leaves the last field unset
         if r.chance(10):
